@@ -489,57 +489,58 @@ def check_theta(built, timeout):
             log("[theta] eval: %s vs KW %s" % ([hex(x) for x in T.evaluate(list(kw_cut), envs[1])], [hex(envs[1]["KW_%d" % i]) for i in range(4)]))
         ob.unknown("the limbs passed to mul_divr_rounded are not the 32-bit halves of the encoded scalar (solver: %s)" % v)
         return obs
-    stage_vars = {}
+    # low 128 bits of g0, g1 (four 32-bit limbs each): located, proved modulo 2^128 (LIA), cut.  The top limb is merged by the
+    # compiler into the sign handling; the final claim is therefore stated on the outputs directly, in integers, with the
+    # magnitude lemma as an assumption.
+    lowv = {}
     for nm, vals in (("g0", A0s), ("g1", A1s)):
-        cands = locate_all(roots, envs, vals, 5, 32)
-        if any(not c_ for c_ in cands):
-            ob.unknown("the 160-bit value %s was not located in the DAG" % nm)
+        gl = locate(roots, envs, [v_ & ((1 << 128) - 1) for v_ in vals], 4, 32, pick="last")
+        if gl is None:
+            ob.unknown("the low 128 bits of %s were not located in the DAG" % nm)
             return obs
-        # the top limb of a value of magnitude below 2^128 is 0 or ff..ff on every real run, like the sign masks derived
-        # from it: every candidate node for it is tried, the stage lemma decides
-        gf, why = None, ""
-        for top in cands[4][:8]:
-            trial = [c_[-1] for c_ in cands[:4]] + [top]
-            ok_, why, q_ = _prove_g(nm, trial, KW, cvars, dvars, envs, timeout)
-            nq += q_
-            if ok_:
-                gf = trial
-                break
-        if gf is None:
-            ob.unknown("stage %s (mod 2^160): %s" % (nm, why))
+        enc = IntEnc()
+        G = word_form(enc, gl, 32)
+        Kf = word_form(enc, KW, 64)
+        C = word_form(enc, cvars, 32)
+        D = word_form(enc, dvars, 32)
+        tgt = (Kf - C.scale(S_) - D.scale(ST_ + (1 << 128))) if nm == "g0" else (C.scale(T_) - D.scale(S_))
+        try:
+            samples = [enc.eval_atoms(env) for env in envs[:32]]
+        except (AssertionError, KeyError) as e:
+            ob.unknown("integer encoder self-check failed in stage %s: %s" % (nm, e))
             return obs
-        vs = [T.var("%s_%d" % (nm, i), 32) for i in range(5)]
-        stage_vars[nm] = vs
-        roots = T.substitute(roots, {f.id: (v_ if f.w == 32 else T.t_zext(v_, f.w)) for f, v_ in zip(gf, vs)})
+        res = PR.prove_congruence(enc, G, tgt, 1 << 128, timeout=timeout, samples=samples)
+        nq += res.queries
+        if res.status != "proved":
+            ob.unknown("stage %s (low 128 bits, mod 2^128): %s %s" % (nm, res.status, str(res.info)[:200]))
+            return obs
+        vs = [T.var("%sl_%d" % (nm, i), 32) for i in range(4)]
+        lowv[nm] = vs
+        roots = T.substitute(roots, {f.id: (v_ if f.w == 32 else T.t_zext(v_, f.w)) for f, v_ in zip(gl, vs)})
         for env, val in zip(envs, vals):
-            for i in range(5):
-                env["%s_%d" % (nm, i)] = (val >> (32 * i)) & 0xFFFFFFFF
-    # abs128 on a 160-bit two's complement value of magnitude below 2^128
-    em = BVEmitter()
-
-    def W32(ws):
-        e = em.ref(ws[0], 32)
-        for x in ws[1:]:
-            e = "(concat %s %s)" % (em.ref(x, 32), e)
-        return e
-
-    def W64(ws):
-        e = em.ref(ws[0], 64) if isinstance(ws[0], T.Term) else bvc(ws[0], 64)
-        for x in ws[1:]:
-            e = "(concat %s %s)" % (em.ref(x, 64) if isinstance(x, T.Term) else bvc(x, 64), e)
-        return e
-    bad = []
-    asm = []
-    for nm, o2, si in (("g0", roots[0:2], roots[4]), ("g1", roots[2:4], roots[5])):
-        g = W32(stage_vars[nm])
-        asm.append("(and (bvslt %s %s) (bvsgt %s %s))" % (g, bvc(1 << 128, 160), g, bvc((1 << 160) - (1 << 128), 160)))
-        bad.append("(distinct %s ((_ extract 127 0) (ite (bvslt %s %s) (bvneg %s) %s)))" % (W64(o2), g, bvc(0, 160), g, g))
-        sref = em.ref(si, 32) if isinstance(si, T.Term) else bvc(si, 32)
-        bad.append("(distinct %s (ite (bvslt %s %s) %s %s))" % (sref, g, bvc(0, 160), bvc(0xFFFFFFFF, 32), bvc(0, 32)))
-    v, _, _ = run_solver(em.script(asm + ["(or %s)" % " ".join(bad)], get_model=False), "z3", timeout)
+            for i in range(4):
+                env["%sl_%d" % (nm, i)] = (val >> (32 * i)) & 0xFFFFFFFF
+    enc = IntEnc()
+    Kf = word_form(enc, KW, 64)
+    C = word_form(enc, cvars, 32)
+    D = word_form(enc, dvars, 32)
+    A0 = Kf - C.scale(S_) - D.scale(ST_ + (1 << 128))
+    A1 = C.scale(T_) - D.scale(S_)
+    extra = ["(< %s %d)" % (Kf.smt(), N)]
+    goal = []
+    for nm, A, o2, si in (("g0", A0, roots[0:2], roots[4]), ("g1", A1, roots[2:4], roots[5])):
+        GL = word_form(enc, lowv[nm], 32)
+        # stage lemma + magnitude lemma: GL = A mod 2^128 with |A| < 2^128
+        extra.append("(and (< (- %d) %s) (< %s %d))" % (1 << 128, A.smt(), A.smt(), 1 << 128))
+        extra.append("(or (= %s %s) (= %s (+ %s %d)))" % (GL.smt(), A.smt(), GL.smt(), A.smt(), 1 << 128))
+        O = word_form(enc, o2, 64)
+        Sg = enc.form(si)[0] if isinstance(si, T.Term) else Lin(si)
+        goal.append("(ite (< %s 0) (and (= %s (- %s)) (= %s 4294967295)) (and (= %s %s) (= %s 0)))"
+                    % (A.smt(), O.smt(), A.smt(), Sg.smt(), O.smt(), A.smt(), Sg.smt()))
+    res = PR.prove(enc, "(and %s)" % " ".join(goal), extra=extra, timeout=timeout)
     nq += 1
-    if v != "unsat":
-        ob.unknown("abs128 stage: %s" % v)
+    if res.status != "proved":
+        ob.unknown("output stage (signs and absolute values from the low halves and the merged top limb): %s" % res.status)
         return obs
-    ob.ok("contract stubs for the two quotients; staged cuts: four truncated products (z3-int, modulo 2^160), two subtraction chains and abs128 (z3-bv)", time.time() - t0, nq)
+    ob.ok("contract stubs for the two quotients; low halves of k0, k1 by staged cuts (z3-int, modulo 2^128); signs and absolute values on the outputs (z3-int, magnitude lemma assumed)", time.time() - t0, nq)
     return obs
